@@ -261,13 +261,13 @@ CHECKS = {
                  "process death = os.Exit(137) at the point (nothing flushed) or SIGKILL; no power-loss model (page cache survives)",
                  "single client, proposals made in send order by one goroutine: log order = send order",
                  "sequential specification LinSpec for the 7 write commands used (Go twin for the oracle)"],
-        partial=["single-replica groups only: the points that need a snapshot arriving from a leader (applysnap.*, persist.savesnap.*, ready.applysnap.*, "
-                 "ready.snapsync.after, ready.release.after) are instrumented but not exercised",
+        partial=["the points that need a snapshot arriving from a leader (applysnap.*, persist.savesnap.*, ready.applysnap.*, ready.snapsync.after, "
+                 "ready.release.after) are exercised only in the 3-process runs (run3 phase=2: 2 in the quick tier, all of them in the thorough tier)",
                  "Persist.lean is the abstract ordering model (prototype); its refinement to the two real loops is not part of this package"],
         assumptions=["engine directory is untrusted after a crash, checkpoint directories are intact once Save returned"],
         level_text="Theorems: checkCrash soundness (accepted run => served state = replay of a prefix of the sent writes containing every acknowledged one, "
                    "specified replies) and the abstract recovery model (recover_total, served_state). Tie: every crash/restart run of the real node is checked by that checker.",
-        level_note="certificate checking of recorded crash runs; F1 (single-voter ack before persist) is expected to be reported",
+        level_note="certificate checking of recorded crash runs; F1 (single-voter ack before persist) was found by this check and is repaired (7426c3f)",
         technique="Lean 4 proven certificate checker over crash/restart runs of a real node process with injected crash points + independent Go oracle",
     ),
     'C07': dict(
@@ -547,3 +547,15 @@ CHECKS['C11']['partial'] = [x for x in CHECKS['C11']['partial'] if not x.startsw
 CHECKS['C06']['gens'] = CHECKS['C06']['gens'] + ['WalSync']
 CHECKS['C06']['level_text'] = CHECKS['C06']['level_text'] + (" PERSIST BEFORE PUBLISH: over the REGENERATED shouldWaitWALSync (node/raft.go) and the pinned statement order of processReady (early persist before publishEntries): "
     "for every Ready of one log with non-decreasing terms, either the Ready is persisted before its committed entries are handed to the apply loop, or every committed entry lies strictly below the first unstable one (C06_publish_only_persisted).")
+
+# C04, kill -9: 3-process groups of protocol crash with a SIGKILL of the leader / a follower in the MIDDLE of the history (killat), the
+# client going on with the new leader and the victim coming back meanwhile (CRASH_FOCUS=cluster makes the generator emit only these)
+CHECKS['C04']['protos'].append({'name': 'crash', 'mode': 'cert', 'quick_seeds': 1, 'thorough_seeds': 1, 'env': {'CRASH_FOCUS': 'cluster'}})
+CHECKS['C04']['rule'] = CHECKS['C04']['rule'] + ("; protocol crash (CRASH_FOCUS=cluster): quick 6 / thorough 60 runs of a 3-PROCESS group (three zvh child processes, "
+    "real server.Server each, raft over rafthttp, snapshot transfer between their directories), one client, SIGKILL of the leader or a follower after a random number "
+    "of acknowledgements in the middle of 120-200 writes, the client goes on with the new leader (what the dead leader left unanswered is optional), the victim is "
+    "restarted a fifth of the history later or at the end; after settling EVERY replica is dumped and checked by CrashCert.checkCrash; Go oracle: acked-lost, "
+    "wrong-reply, phantom-write, not-a-prefix, replica-diverge, restart-failed")
+CHECKS['C04']['assumptions'] = ["kill -9 runs have one (pipelining) client; concurrent clients only under graceful faults (protocol lin)", "one partition, one namespace, <= 4 keys per history"]
+CHECKS['C04']['level_text'] = CHECKS['C04']['level_text'] + (" KILL -9: C04_kill9_acked_never_lost — every replica dump accepted by the crash certificate checker is the sequential "
+    "replay of a sub-sequence of the sent writes, in the order sent, that contains every acknowledged write (tie: 3-process runs with SIGKILL in mid-history).")
